@@ -917,9 +917,14 @@ func (p *balloons) deleteBalloon(bln *Balloon) {
 	}
 	p.balloons = remainingBalloons
 	p.forgetCpuClass(bln)
+	freedCpus := bln.Cpus.Clone()
 	p.freeCpus = p.freeCpus.Union(bln.Cpus)
 	if _, err := p.cpuAllocator.ReleaseCpus(&bln.Cpus, bln.Cpus.Size(), bln.Def.AllocatorPriority.Value().Option()); err != nil {
 		log.Warnf("failed to release CPUs %q of balloon %s[%d]: %v", bln.Cpus, bln.Def.Name, bln.Instance, err)
+	}
+	// the CPUs of the deleted balloon are idle again: share them with the balloons that share idle CPUs
+	if freedCpus.Size() > 0 {
+		p.updatePinning(p.shareIdleCpus(freedCpus, cpuset.New())...)
 	}
 }
 
@@ -972,6 +977,8 @@ func (p *balloons) fillableBalloonInstances(blnDef *BalloonDef, fm FillMethod, c
 		}
 		undoFuncs = append(undoFuncs, func() {
 			p.freeCpus = p.freeCpus.Union(newBln.Cpus)
+			// the CPUs are idle again: share them with the balloons that share idle CPUs
+			p.updatePinning(p.shareIdleCpus(newBln.Cpus, cpuset.New())...)
 		})
 		if newBln.MaxAvailMilliCpus(p.freeCpus) < reqMilliCpus {
 			// New balloon cannot be inflated to fit new
